@@ -3,7 +3,9 @@
 package server
 
 import (
+	"context"
 	"net"
+	"net/http"
 	"os"
 	"sync"
 	"sync/atomic"
@@ -14,6 +16,7 @@ import (
 	"github.com/XiaoMi/Gaea/mysql"
 	"github.com/XiaoMi/Gaea/util"
 	"github.com/XiaoMi/Gaea/util/sync2"
+	"github.com/gin-gonic/gin"
 	uber_atomic "go.uber.org/atomic"
 )
 
@@ -122,6 +125,34 @@ func VerifNewServer(m *Manager, sessionTimeoutSec int, authPlugin, serverVersion
 	s.tw.Start()
 	return s, nil
 }
+
+// VerifNewAdminHandler builds the admin API of a proxy the way NewAdminServer does (same routes, same
+// handlers, same basic auth) without a listener and without registering the proxy in the coordinator; the
+// returned handler is the gin engine the control plane's HTTP calls are routed into.
+func VerifNewAdminHandler(proxy *Server, cfg *models.Proxy) http.Handler {
+	s := new(AdminServer)
+	ctx, cancel := context.WithCancel(context.Background())
+	s.ctx = ctx
+	s.cancel = cancel
+	s.exit.C = make(chan struct{})
+	s.proxy = proxy
+	s.adminUser = cfg.AdminUser
+	s.adminPassword = cfg.AdminPassword
+	s.configType = cfg.ConfigType
+	s.coordinatorAddr = cfg.CoordinatorAddr
+	s.coordinatorUsername = cfg.UserName
+	s.coordinatorPassword = cfg.Password
+	s.coordinatorRoot = cfg.CoordinatorRoot
+	s.localNamespaceStoragePath = cfg.LocalNamespaceStoragePath
+	s.configFile = cfg.ConfigFile
+	gin.SetMode(gin.ReleaseMode)
+	s.engine = gin.New()
+	s.registerURL()
+	return s.engine
+}
+
+// VerifSetEncryptKey sets the key a Server decrypts stored namespaces with.
+func VerifSetEncryptKey(s *Server, key string) { s.EncryptKey = key }
 
 // VerifServe runs one client connection through the real onConn (handshake, command loop, close).
 func VerifServe(s *Server, c net.Conn) { s.onConn(c) }
